@@ -263,3 +263,61 @@ Example support_equivariant_nonvacuous :
   is_rotation rotx90 /\ support_box (mulMV rotx90 (V 1 2 3)) (move rotx90 (V 5 6 7) (P ident (V 1 1 1))) (V 1 2 3)
   = rigid rotx90 (V 5 6 7) (support_box (V 1 2 3) (P ident (V 1 1 1)) (V 1 2 3)).
 Proof. split; [apply rotx90_rotation|]. apply support_box_equivariant. apply rotx90_rotation. Qed.
+
+(** ** disk: the code builds a basis of the plane with [plane_basis_from_normal], whose choice
+    depends on the WORLD coordinates of the normal (|n0| >= |n1| ?), yet the support point does
+    not depend on the basis: closed form  c + r w/|w|,  w = d - (d.n) n. *)
+From D3 Require Import Spec.Shapes Proofs.SupportB.
+
+Lemma of_cols_T_normal (x y n : V3R) :
+  is_rotation (of_cols x y n) -> mulTV (of_cols x y n) n = V 0 0 1.
+Proof.
+  intros H. apply is_rotation_cols in H. destruct H as (_ & _ & C & _ & E & G).
+  unfold of_cols in *. vsimp. cbn in *. f_equal; lra.
+Qed.
+
+Lemma mulTV_sub (m : M3 R) (a b : V3R) : mulTV m (vsub a b) = vsub (mulTV m a) (mulTV m b).
+Proof. vsimp; f_equal; ring. Qed.
+Lemma mulTV_scale (m : M3 R) (s : R) (a : V3R) : mulTV m (vscale s a) = vscale s (mulTV m a).
+Proof. vsimp; f_equal; ring. Qed.
+Lemma mulTV_z (x y n d : V3R) : vz (mulTV (of_cols x y n) d) = dot d n.
+Proof. unfold of_cols. vsimp. cbn. ring. Qed.
+
+Lemma drop_z (x y n d : V3R) :
+  V (vx (mulTV (of_cols x y n) d)) (vy (mulTV (of_cols x y n) d)) 0
+  = vsub (mulTV (of_cols x y n) d) (vscale (dot d n) (V 0 0 1)).
+Proof. unfold of_cols. vsimp. cbn. f_equal; ring. Qed.
+
+Theorem support_disk_closed_form (d c : V3R) (r : R) (n : V3R) :
+  dot n n = 1 ->
+  support_disk d c r n =
+  (let w := vsub d (vscale (dot d n) n) in
+   if Reqb (norm w) 0 then c else vadd c (vscale (r / norm w) w)).
+Proof.
+  intros Hn. unfold support_disk.
+  pose proof (plane_basis_rotation n Hn) as Hrot.
+  destruct (plane_basis_from_normal n) as [x y]. cbn [fst snd] in Hrot.
+  change (column_stack x y n) with (of_cols x y n).
+  set (w := vsub d (vscale (dot d n) n)). cbv zeta.
+  assert (Ew : V (vx (mulTV (of_cols x y n) d)) (vy (mulTV (of_cols x y n) d)) 0 = mulTV (of_cols x y n) w).
+  { unfold w. rewrite mulTV_sub, mulTV_scale, of_cols_T_normal by auto. apply drop_z. }
+  set (M := of_cols x y n) in *.
+  change zero with 0. rewrite Ew.
+  assert (En : norm (mulTV M w) = norm w).
+  { unfold norm. f_equal. apply rotation_mulTV_dot; auto. }
+  rewrite En. rops. destruct (Reqb (norm w) 0); auto.
+  f_equal. rewrite mulMV_scale. f_equal. apply rotation_inverse_r; auto.
+Qed.
+
+Theorem support_disk_equivariant (Rg : M3 R) (t : V3R) (d c : V3R) (r : R) (n : V3R) :
+  is_rotation Rg -> dot n n = 1 ->
+  support_disk (mulMV Rg d) (rigid Rg t c) r (mulMV Rg n) = rigid Rg t (support_disk d c r n).
+Proof.
+  intros HR Hn.
+  rewrite (support_disk_closed_form d c r n Hn).
+  rewrite support_disk_closed_form by (rewrite is_rotation_dot; auto).
+  cbv zeta. rewrite is_rotation_dot by auto.
+  rewrite <- mulMV_scale, <- mulMV_sub, is_rotation_norm by auto.
+  destruct (Reqb _ 0); auto.
+  rewrite <- mulMV_scale. apply rigid_add.
+Qed.
